@@ -1,4 +1,137 @@
 package main
 
-// run2: operations added after the first batch (utils, suites, urls, random) — see exec_more.go
-func run2(f []string) (string, bool) { return "", false }
+import (
+	"crypto/rand"
+	"encoding/base32"
+	"fmt"
+	"io"
+	"strings"
+	"sync"
+
+	"github.com/ja7ad/otp"
+)
+
+// streamReader serves the bytes of a fixed buffer (zeros beyond its end) and records every read.
+type streamReader struct {
+	mu    sync.Mutex
+	buf   []byte
+	pos   int
+	reads [][2]int // offset, length
+}
+
+func (s *streamReader) Read(p []byte) (int, error) {
+	s.mu.Lock()
+	defer s.mu.Unlock()
+	for i := range p {
+		if s.pos+i < len(s.buf) {
+			p[i] = s.buf[s.pos+i]
+		} else {
+			p[i] = 0
+		}
+	}
+	s.reads = append(s.reads, [2]int{s.pos, len(p)})
+	s.pos += len(p)
+	return len(p), nil
+}
+
+var randMu sync.Mutex
+
+func withReader(r io.Reader, f func()) {
+	randMu.Lock()
+	defer randMu.Unlock()
+	old := rand.Reader
+	rand.Reader = r
+	defer func() { rand.Reader = old }()
+	f()
+}
+
+func run2(f []string) (string, bool) {
+	switch f[0] {
+	case "to8":
+		return okBytes(otp.To8ByteBigEndian(u64(f[1]))), true
+	case "pdec8a":
+		return bytesOrErr(otp.ParseDecimalToBigEndian8(string(unhx(f[1])))), true
+	case "pdec8b":
+		return bytesOrErr(otp.ParseDecimal64BigEndian(string(unhx(f[1])))), true
+	case "lpad":
+		return okStr(otp.LeftPadHex(string(unhx(f[1])), int(i64(f[2])))), true
+	case "phexts":
+		return bytesOrErr(otp.ParseHexTimestamp(string(unhx(f[1])))), true
+	case "pchal":
+		return bytesOrErr(otp.ParseDecimalChallengeRFC6287(string(unhx(f[1])))), true
+	case "hexin":
+		in, err := otp.HexInputToOCRA(string(unhx(f[1])), string(unhx(f[2])), string(unhx(f[3])), string(unhx(f[4])), string(unhx(f[5])))
+		if err != nil {
+			return errOut(err), true
+		}
+		return "ok:" + fmtInput(in), true
+	case "b32enc":
+		return okStr(base32.StdEncoding.WithPadding(base32.NoPadding).EncodeToString(unhx(f[1]))), true
+	case "rand":
+		// rand <stream hex> <algo,algo,...>: a sequential history of RandomSecret calls on a substituted source
+		sr := &streamReader{buf: unhx(f[1])}
+		var sb strings.Builder
+		sb.WriteString("r:")
+		withReader(sr, func() {
+			for _, a := range strings.Split(f[2], ",") {
+				pos := sr.pos
+				s, err := otp.RandomSecret(otp.Algorithm(u64(a)))
+				if err != nil {
+					fmt.Fprintf(&sb, "%d:err;", pos)
+				} else {
+					fmt.Fprintf(&sb, "%d:%s;", pos, s)
+				}
+			}
+		})
+		return sb.String(), true
+	case "randconc":
+		// randconc <stream hex> <goroutines> <calls each>: interleaved calls; every result must be the
+		// unpadded base32 of exactly one recorded read, each read used once (self-check)
+		sr := &streamReader{buf: unhx(f[1])}
+		g, k := int(u64(f[2])), int(u64(f[3]))
+		results := make(chan string, g*k)
+		withReader(sr, func() {
+			var wg sync.WaitGroup
+			for i := 0; i < g; i++ {
+				wg.Add(1)
+				go func(i int) {
+					defer wg.Done()
+					for j := 0; j < k; j++ {
+						s, err := otp.RandomSecret(otp.Algorithm((i + j) % 3))
+						if err != nil {
+							results <- "ERR"
+						} else {
+							results <- s
+						}
+					}
+				}(i)
+			}
+			wg.Wait()
+		})
+		close(results)
+		want := map[string]int{}
+		enc := base32.StdEncoding.WithPadding(base32.NoPadding)
+		for _, rd := range sr.reads {
+			b := make([]byte, rd[1])
+			for i := range b {
+				if rd[0]+i < len(sr.buf) {
+					b[i] = sr.buf[rd[0]+i]
+				}
+			}
+			want[enc.EncodeToString(b)]++
+		}
+		n := 0
+		for s := range results {
+			n++
+			if want[s] == 0 {
+				return "bad:result-not-a-recorded-read", true
+			}
+			want[s]--
+		}
+		if n != g*k || len(sr.reads) != g*k {
+			return fmt.Sprintf("bad:%d-results-%d-reads", n, len(sr.reads)), true
+		}
+		return "ok:", true
+	}
+	return run3(f)
+}
